@@ -19,6 +19,7 @@ BLK, PAD = 'crysp/blake.py', 'crysp/padding.py'
 
 
 def run(ctx):
+    integrity(ctx, ['crysp/bits.py', 'crysp/blake.py', 'crysp/padding.py', 'crysp/poly.py', 'crysp/sha.py'])
     ctx.rule('C11-R1 constants')
 
     def consts():
